@@ -226,6 +226,281 @@ def has_bytes(v):
     return False
 
 
+# ---- lengths and counts at the width boundaries of the formats' length prefixes -----------------------------------------------------
+
+# CBOR: 23/24 (in the initial byte / one byte), 255/256, 65535/65536; MessagePack: 15/16 and 31/32 (fix forms), 255/256, 65535/65536;
+# UBJSON: 127/128 (i / U), 255/256 (U / I), 32767/32768 (I / l, both signed); BSON: int32 throughout (a control: nothing changes).
+BOUNDARY_SMALL = (15, 16, 23, 24, 31, 32, 127, 128, 255, 256)
+BOUNDARY_BIG = (32767, 32768, 65535, 65536)
+REF_UBJSON_BYTES_MAX = 32768          # the reference reads a UBJSON byte string as a typed array, quadratic in its length: above this
+#                                       length the encoder's output is judged by the library's own decoder only
+
+
+def boundary_values(kind, n, fmt):
+    """the value of one kind whose length / count is n"""
+    if kind == "str":
+        return b"a" * n
+    if kind == "str2":
+        return b"\xc3\xa9" * (n // 2) + b"a" * (n % 2)          # n bytes, fewer characters: the prefix counts bytes
+    if kind == "key":
+        return Obj([(b"k" * n, None)])
+    if kind == "bytes":
+        return ("b", bytes((i * 7 + 1) & 0xff for i in range(n)))
+    if kind == "arr":
+        return [None] * n
+    if kind == "obj":
+        return Obj([(b"%d" % i, None) for i in range(n)])
+    raise ValueError(kind)
+
+
+def events_of(v):
+    """the definite-length event sequence of a value"""
+    if v is None:
+        return ["N"]
+    if isinstance(v, bytes):
+        return ["S" + v.hex()]
+    if isinstance(v, tuple) and v[0] == "b":
+        return ["B" + v[1].hex()]
+    if isinstance(v, list):
+        return ["BA%d" % len(v)] + [t for x in v for t in events_of(x)] + ["EA"]
+    if isinstance(v, Obj):
+        return ["BO%d" % len(v.members)] + [t for k, x in v.members for t in ["K" + k.hex()] + events_of(x)] + ["EO"]
+    raise ValueError(v)
+
+
+def gen_boundary_lines(rng, tier):
+    """strings (ASCII and two-byte characters), member names, byte strings, arrays and objects whose length / count sits on either side
+    of every width boundary of every format, at one random place inside the 16-bit window and at one above 65536; pushed as
+    events into each encoder and, for a share, handed over as a value (encode_X). Objects with tens of thousands of members cost the
+    reference decoders (and ojson) quadratic time: their counts stop at 256 in the quick tier."""
+    big = list(BOUNDARY_BIG) + [rng.randint(32769, 65534), rng.randint(65537, 99999)]
+    ls = []
+    for fmt in FMTS:
+        opts = "p0" if fmt == "cbor" else "-"
+        for kind in ("str", "str2", "key", "bytes", "arr", "obj"):
+            sizes = list(BOUNDARY_SMALL) + (big if kind != "obj" else ([32767, 32768] if tier == "thorough" else []))
+            if fmt == "bson":
+                sizes = [n for n in sizes if n <= 256 or n in (32768, 65536)]       # int32 lengths throughout: a control
+            for n in sizes:
+                v = boundary_values(kind, n, fmt)
+                if fmt == "bson" and kind not in ("key", "obj"):
+                    v = Obj([(b"v", v)])
+                ls.append(("bin events %s %s %s" % (fmt, opts, " ".join(events_of(v))), v))
+                if n <= 256 or n in (32768, 65535) and kind in ("str", "bytes", "arr", "key"):
+                    ls.append(("bin enc %s o %s %s" % (fmt, opts, wire.render(v)), v))
+    return ls
+
+
+def spec_judge_boundaries(ctx, lines, impls, meta):
+    """the bytes are well-formed per the Lean reference decoder of the format and denote the value handed to the encoder"""
+    q, idx = [], []
+    for i, (l, o) in enumerate(zip(lines, impls)):
+        if o.startswith("ok x"):
+            v = meta[l][0]
+            fmt = l.split()[2]
+            if fmt == "ubjson" and isinstance(v, tuple) and len(v[1]) > REF_UBJSON_BYTES_MAX:
+                continue
+            q.append("bin sdec %s %s" % (fmt, o.split()[1]))
+            idx.append(i)
+    outs = vlib.run_model(q)
+    judged = 0
+    for i, r in zip(idx, outs):
+        l = lines[i]
+        v = meta[l][0]
+        fmt = l.split()[2]
+        if r == "ill":
+            ctx.fail_inputs.append(("length-boundaries", l, impls[i][:400], r, "the encoder's output is not well-formed %s (reference decoder)" % fmt))
+            continue
+        if r == "unjudged":
+            continue                           # BSON binary elements: the rendering is jsoncons' own choice
+        judged += 1
+        want = wire.canon_nan(c06.norm_for(fmt, v, "o"))
+        if not c06.same(value_from_spec(r), want):
+            ctx.fail_inputs.append(("length-boundaries", l, impls[i][:400], r[:400], "the encoder's output denotes a different value than the one handed over (reference decoder)"))
+    return judged
+
+
+# ---- CBOR decimal fractions (tag 4) and bigfloats (tag 5) written from tagged text ---------------------------------------------------
+
+import re as _re
+DEC_LITERAL = _re.compile(rb"^([+-]?)([0-9]+)(?:\.([0-9]+))?(?:[eE]([+-]?)([0-9]+))?$")
+JSON_NUMBER = _re.compile(rb"^-?(0|[1-9][0-9]*)(\.[0-9]+)?([eE][+-]?[0-9]+)?$")
+HEX_LITERAL = _re.compile(rb"^(-?)0[xX]([0-9a-fA-F]+)(?:\.([0-9a-fA-F]*))?(?:[pP]([+-]?)([0-9a-fA-F]+))?$")
+MANTISSA_EDGES = [0, 1, 9, 10, 15, 255, 2 ** 31, 2 ** 32, 2 ** 53 + 1, 2 ** 63 - 1, 2 ** 63, 2 ** 63 + 1, 2 ** 64 - 1, 2 ** 64, 2 ** 64 + 1, 10 ** 19, 10 ** 20 - 1,
+                  2 ** 72, 2 ** 128 - 1, 10 ** 38 + 7]
+EXPONENT_EDGES = [0, 1, 2, 3, 5, 9, 10, 17, 18, 19, 20, 23, 24, 99, 255, 256, 308, 324, 400, 4000, 65535, 65536, 2 ** 31 - 1, 2 ** 31, 2 ** 32, 10 ** 15, 2 ** 62]
+
+
+def gen_decimal_texts(rng, n):
+    """the decimal-literal grammar  sign? digits [. digits] [(e|E) sign? digits]  in all its combinations: fraction and exponent together,
+    either alone, neither; leading zeros in the exponent; negative exponents; trailing zeros; mantissas on both sides of 2^63 / 2^64 and
+    far beyond; a small share with a '+' sign or leading zeros in the integer part (outside JSON's grammar: judged only if accepted)"""
+    out = [b"1.5e3", b"-12.5E-2", b"0.001e+6", b"3.14159e0", b"273.15", b"1e3", b"25e-2", b"0", b"-0", b"0.0", b"-0.0e-0", b"0e0", b"1.0", b"10", b"1.50e+007",
+           b"18446744073709551616.15", b"-18446744073709551616e-5", b"184467440737.09551616e5", b"9223372036854775807", b"-9223372036854775808",
+           b"-9223372036854775.809e3", b"0.000000000000000000000000000001e30", b"1e-0005", b"1.5e400", b"-2.25e-400", b"1E400"]
+    for _ in range(n):
+        r = rng.random()
+        if r < 0.45:
+            digs = str(rng.choice(MANTISSA_EDGES) + rng.choice([0, 0, 1, -1, 5]) if rng.random() < 0.8 else rng.getrandbits(rng.choice([64, 65, 90, 130])))
+            digs = digs.lstrip("-") or "0"
+        else:
+            digs = str(rng.randrange(10 ** rng.randint(1, 30)))
+        if rng.random() < 0.25:
+            digs += "0" * rng.randint(1, 4)                       # trailing zeros stay digits of the mantissa
+        cut = rng.randint(1, len(digs)) if rng.random() < 0.7 else len(digs)
+        ip, fp = digs[:cut], digs[cut:]
+        if rng.random() < 0.15:
+            ip, fp = "0", "0" * rng.randint(0, 5) + digs             # 0.000ddd
+        if len(ip) > 1 and ip[0] == "0":
+            ip = ip.lstrip("0") or "0"
+        if rng.random() < 0.04:
+            ip = "0" * rng.randint(1, 3) + ip                     # outside JSON's grammar
+        ex = ""
+        if rng.random() < 0.7:
+            e = rng.choice(EXPONENT_EDGES) if rng.random() < 0.6 else rng.randint(0, 400)
+            ex = rng.choice("eE") + rng.choice(["", "", "+", "-", "-"]) + "0" * (rng.randint(1, 3) if rng.random() < 0.2 and e < 10 ** 15 else 0) + str(e)
+        sign = "-" if rng.random() < 0.35 else ("+" if rng.random() < 0.04 else "")
+        out.append((sign + ip + ("." + fp if fp else "") + ex).encode())
+    return out
+
+
+def gen_hexfloat_texts(rng, n):
+    """[-]0x hex [. hex] [(p|P) sign? hex]  (jsoncons writes and reads the exponent in hexadecimal)"""
+    out = [b"0x3p-1", b"0x1.8", b"-0x1.8", b"0x0.1", b"0xFFFFFFFFFFFFFFFF.F", b"0x1.8p1", b"0x.8", b"0x1.", b"0x10p10", b"0X1P+A", b"-0x1p-1F"]
+    for _ in range(n):
+        m = rng.choice(MANTISSA_EDGES) if rng.random() < 0.6 else rng.getrandbits(rng.choice([8, 40, 64, 65, 100]))
+        h = "%x" % m if rng.random() < 0.3 else "%X" % m
+        r = rng.random()
+        if r < 0.4:
+            cut = rng.randint(1, len(h))
+            h = h[:cut] + "." + h[cut:]
+        t = ("-" if rng.random() < 0.4 else "") + rng.choice(["0x", "0x", "0X"]) + h
+        if "." not in h or rng.random() < 0.3:
+            e = rng.choice(EXPONENT_EDGES[:24]) if rng.random() < 0.6 else rng.randint(0, 100000)
+            t += rng.choice("pP") + rng.choice(["", "+", "-", "-"]) + ("%x" % e if rng.random() < 0.3 else "%X" % e)
+        out.append(t.encode())
+    return out
+
+
+def gen_bignum_text_lines(rng, n):
+    ls = []
+    for tag, texts in (("bigdec", gen_decimal_texts(rng, n)), ("bigfloat", gen_hexfloat_texts(rng, n // 3))):
+        for t in texts:
+            if rng.random() < 0.5:
+                ls.append("bin enc cbor j p0 s%s@%s" % (t.hex(), tag))
+            else:
+                ls.append("bin events cbor p0 S%s@%s" % (t.hex(), tag))
+    return ls
+
+
+def strip_factor(m, e, base):
+    """(m, e) with m * base^e unchanged and m not divisible by base: equal numbers have equal normal forms"""
+    if m == 0:
+        return (0, 0)
+    while m % base == 0:
+        m //= base
+        e += 1
+    return (m, e)
+
+
+def literal_value(tag, text):
+    """(mantissa, exponent, base, in JSON's number grammar) of the number a literal denotes, or None if the text is outside the grammar"""
+    if tag == "bigdec":
+        g = DEC_LITERAL.match(text)
+        if not g:
+            return None
+        frac = g.group(3) or b""
+        m = int(g.group(2) + frac) * (-1 if g.group(1) == b"-" else 1)
+        e = (int(g.group(5)) * (-1 if g.group(4) == b"-" else 1) if g.group(5) else 0) - len(frac)
+        return m, e, 10, bool(JSON_NUMBER.match(text))
+    g = HEX_LITERAL.match(text)
+    if not g:
+        return None
+    frac = g.group(3) or b""
+    m = int(g.group(2) + frac, 16) * (-1 if g.group(1) == b"-" else 1)
+    e = (int(g.group(5), 16) * (-1 if g.group(4) == b"-" else 1) if g.group(5) else 0) - 4 * len(frac)
+    return m, e, 2, False
+
+
+def bignum_text_oracle(line, impl, model, ref=None):
+    """the library's own reading of what it wrote (the reference's reading is judged by spec_judge_bignum_text)"""
+    from fractions import Fraction
+    tok = line.split()[-1]
+    text, tag = bytes.fromhex(tok[1:].split("@")[0]), tok.split("@")[1]
+    lit = literal_value(tag, text)
+    if impl.startswith("err"):
+        if lit and lit[3] and abs(lit[1]) < 2 ** 63 and len(_re.split(rb"[eE][+-]?", text)[-1]) <= 19:
+            return "the CBOR encoder refused a bigdec string that is a JSON number: " + impl
+        return None                  # outside JSON's grammar ('+', leading zeros), an exponent field longer than dec_to_integer takes (19 characters),
+        #                              or a bigfloat spelling the encoder does not take: a refusal is an answer
+    if lit is None:
+        return None
+    parts = [p.strip() for p in impl.split("|")]
+    if len(parts) >= 2 and parts[1].startswith("err"):
+        # jsoncons' own decoder takes exponents of int32 range only (read_decimal_fraction / read_bigfloat refuse the rest), and for tag 4
+        # not the last few below INT_MAX either (exponent + number of characters of the mantissa must stay in int; INT_MIN is refused: D84).
+        # An implementation limit reported through the error channel; what was written is judged by the reference decoder alone
+        if not -2 ** 31 <= lit[1] <= 2 ** 31 - 1:
+            return None
+        if tag == "bigdec" and (lit[1] > 2 ** 31 - 1 - len(str(lit[0])) or lit[1] == -2 ** 31):
+            return None
+    if len(parts) < 2 or not parts[1].startswith("ok "):
+        return "the encoder's output does not decode: " + impl[-120:]
+    have = wire.parse_all(parts[1][3:])[0]
+    if not (isinstance(have, Tagged) and have.tag == tag):
+        return "the library reads its own tag-%d item back as something else: %s" % (4 if tag == "bigdec" else 5, parts[1][:80])
+    back = literal_value(tag, have.value)
+    if back is None or strip_factor(back[0], back[1], back[2]) != strip_factor(lit[0], lit[1], lit[2]):
+        return "the library reads its own output back as a different number: %r" % have.value[:80]
+    return None
+
+
+def spec_judge_bignum_text(ctx, lines, impls):
+    """RFC 8949 3.4.4: tag 4 [e, m] denotes m * 10^e, tag 5 [e, m] denotes m * 2^e. The pair is read by the Lean reference decoder (which
+    leaves the rendering of tags 4 and 5 to jsoncons: it is given the array behind the one-byte tag head, checked here to be 0xc4 / 0xc5)
+    and must denote exactly the number the literal denotes: fractions.Fraction where the exponent is small enough to expand, and the
+    normal form (mantissa not divisible by the base, exponent) — equal for equal numbers — everywhere"""
+    from fractions import Fraction
+    q, idx = [], []
+    for i, (l, o) in enumerate(zip(lines, impls)):
+        if o.startswith("ok x"):
+            b = o.split()[1][1:]
+            tok = l.split()[-1]
+            tag = tok.split("@")[1]
+            if literal_value(tag, bytes.fromhex(tok[1:].split("@")[0])) is None:
+                continue
+            if b[:2] != ("c4" if tag == "bigdec" else "c5"):
+                ctx.fail_inputs.append(("cbor-bignum-text", l, o[:300], None, "a %s string was not written under tag %d" % (tag, 4 if tag == "bigdec" else 5)))
+                continue
+            q.append("bin sdec cbor x" + b[2:])
+            idx.append(i)
+    outs = vlib.run_model(q)
+    judged = 0
+    for i, r in zip(idx, outs):
+        l = lines[i]
+        tok = l.split()[-1]
+        text, tag = bytes.fromhex(tok[1:].split("@")[0]), tok.split("@")[1]
+        m, e, base, _ = literal_value(tag, text)
+        pair = wire.parse_all(r[3:])[0] if r.startswith("ok ") else None
+        if isinstance(pair, list) and len(pair) == 2 and isinstance(pair[1], Tagged) and pair[1].tag == "bigint":
+            pair = [pair[0], int(pair[1].value)]                  # a bignum mantissa (tags 2 / 3)
+        if not (isinstance(pair, list) and len(pair) == 2 and all(isinstance(x, int) and not isinstance(x, bool) for x in pair)):
+            ctx.fail_inputs.append(("cbor-bignum-text", l, impls[i][:300], r[:300], "what follows tag %d is not a well-formed array of two integers [exponent, mantissa]" % (4 if tag == "bigdec" else 5)))
+            continue
+        judged += 1
+        eo, mo = pair
+        same = strip_factor(mo, eo, base) == strip_factor(m, e, base)
+        if max(abs(e), abs(eo)) <= 5000:
+            exact = Fraction(mo) * Fraction(base) ** eo
+            if tag == "bigdec":
+                same = same and exact == Fraction(text.decode())
+            else:
+                same = same and exact == Fraction(m) * Fraction(2) ** e
+        if not same:
+            ctx.fail_inputs.append(("cbor-bignum-text", l, impls[i][:300], r[:300], "%r was written as %d * %d^%d, which is a different number" % (text, mo, base, eo)))
+    return judged
+
+
 # ---- JSON text from events / from decoded binary values --------------------------------------------------------
 
 def json_value_of(v):
@@ -374,6 +649,16 @@ def streams(ctx, rng, scale):
     st = ctx.correspond("binary-encoders-events", HARNESS, lines, events_oracle_factory(meta), nontrivial, want_model=False)
     if "_impl" in st:
         spec_judge_events(ctx, lines, st["_impl"], meta)
+    lb = gen_boundary_lines(rng, ctx.tier)
+    bmeta = {l: (v, False) for l, v in lb}
+    bl = [l for l, _ in lb]
+    st = ctx.correspond("length-boundaries", HARNESS, bl, events_oracle_factory(bmeta), lambda l, i: l[:200], want_model=False)
+    if "_impl" in st:
+        st["reference_judged"] = spec_judge_boundaries(ctx, bl, st["_impl"], bmeta)
+    ln = gen_bignum_text_lines(rng, 600 * scale)
+    st = ctx.correspond("cbor-bignum-text", HARNESS, ln, bignum_text_oracle, lambda l, i: l, want_model=False)
+    if "_impl" in st:
+        st["reference_judged"] = spec_judge_bignum_text(ctx, ln, st["_impl"])
     ts = gen_timestamp_lines(rng)
     tmeta = dict(ts)
     ctx.correspond("msgpack-timestamps", HARNESS, [l for l, _ in ts], ts_oracle_factory(tmeta), nontrivial, want_model=False)
@@ -403,7 +688,11 @@ def run(ctx):
                        "declared lengths, indefinite containers) pushed into the real CBOR/MessagePack/UBJSON/BSON/JSON(compact, pretty) encoders; "
                        "outputs judged by the Lean reference decoders / RFC 8259 reference parser (well-formed and denoting the pushed value; wrong "
                        "lengths must be errors); values decoded from reference-encoded inputs of each format dumped as JSON and re-encoded in every "
-                       "other format. non-trivial = sequence longer than 40 characters; distinct by line")
+                       "other format; strings, member names, byte strings, arrays and objects whose length / count sits on either side of every width boundary "
+                       "of the length prefixes (15/16, 23/24, 31/32, 127/128, 255/256, 32767/32768, 65535/65536, inside the 16-bit window and above 65536) as "
+                       "events and as values into every encoder, judged by the reference decoders; bigdec-tagged strings over the whole decimal-literal grammar "
+                       "and bigfloat-tagged hexadecimal literals into the CBOR encoder, the [exponent, mantissa] pair read by the reference decoder and compared "
+                       "as an exact rational with the literal. non-trivial = sequence longer than 40 characters; distinct by line")
     rng = vlib.rng_for(ctx.seed, "c08")
     streams(ctx, rng, 1 if ctx.tier == "quick" else 10)
 
